@@ -110,6 +110,14 @@ type wirePart struct {
 
 func (p wirePart) String() string { return fmt.Sprintf("%s[%d,%d)", p.Name, p.Beg, p.End) }
 
+func prevs(ps []wirePart) string {
+	var s []string
+	for _, p := range ps {
+		s = append(s, p.Name+"<-"+p.Prev)
+	}
+	return strings.Join(s, ",")
+}
+
 type wireReq struct {
 	Kind     string // data | recovery | validate | partials
 	Gen      int
@@ -153,7 +161,7 @@ type rig struct {
 	srv     *stshttp.Server
 	srvStop chan bool
 	srvDone chan bool
-	recvDir string // root of the receiver's directories (changes with every receiver incarnation)
+	recvDir string            // root of the receiver's directories (changes with every receiver incarnation)
 	armed   map[string]string // "name beg end" -> fail | corrupt (one shot, consumed by the gate keeper wrapper)
 	stages  []*stage.Stage
 	oldRecv []string
@@ -164,7 +172,7 @@ type rig struct {
 	outDir   string
 	cli      *clientApp
 	stop     chan bool
-	done     chan bool
+	doneCh   chan int // incarnation number of a sender that exited while it was the current one
 	sendLogs []*log.FileIO
 	stopped  string // "", "graceful", "now": a stop was requested by the plan
 	stopAt   time.Duration
@@ -180,8 +188,8 @@ type rig struct {
 	changed     map[string]bool
 
 	downUntil time.Duration // the receiver is unreachable until then
-	preload []preloaded // what the receiver delivered and logged in an earlier run (known only from its log)
-	fileOps []string    // file changes offered at every sender action (C17): rewrite, append, touch, delete
+	preload   []preloaded   // what the receiver delivered and logged in an earlier run (known only from its log)
+	fileOps   []string      // file changes offered at every sender action (C17): rewrite, append, touch, delete
 
 	// snapshot taken when the sender crashes: what the receiver had delivered by then
 	finalAtCrash []map[string]string
@@ -479,9 +487,23 @@ func (r *rig) startSender() {
 	bc.Validator = func(f []sts.Pollable) ([]sts.Polled, error) { return r.validate(gen, realV, f) }
 	bc.Recoverer = func() ([]*sts.Partial, error) { return r.partials(gen, realP) }
 	r.stop = make(chan bool, 2)
-	r.done = make(chan bool, 1)
+	done := make(chan bool, 1)
 	r.finished = false
-	go app.broker.Start(r.stop, r.done)
+	if r.doneCh == nil {
+		r.doneCh = make(chan int, 16)
+	}
+	go app.broker.Start(r.stop, done)
+	go func() { // one watcher per incarnation; only the current incarnation's exit counts
+		<-done
+		r.mu.Lock()
+		current := gen == r.gen
+		r.mu.Unlock()
+		if current {
+			r.doneCh <- gen
+		} else {
+			app.destroy()
+		}
+	}()
 	if r.conf.OneShot {
 		r.stop <- true // main: stopClients(graceful) right after start when not running as a daemon
 	}
@@ -559,8 +581,6 @@ func (r *rig) crashSender() {
 	r.mu.Lock()
 	oldDir := r.sendDir
 	oldStop := r.stop
-	oldDone := r.done
-	oldCli := r.cli
 	r.gen++
 	r.mu.Unlock()
 	newDir := filepath.Join(r.root, fmt.Sprintf("send%d", r.gen))
@@ -569,11 +589,7 @@ func (r *rig) crashSender() {
 	}
 	r.finalAtCrash = append(r.finalAtCrash, r.finalFiles())
 	r.note("sender crashed; incarnation %d starts", r.gen)
-	go func() { // drain the dead incarnation
-		oldStop <- false
-		<-oldDone
-		oldCli.destroy()
-	}()
+	go func() { oldStop <- false }() // drain the dead incarnation
 	r.startSender()
 }
 
@@ -873,7 +889,10 @@ func (r *rig) run(goal func(r *rig) bool) {
 	tick := time.Second
 	for {
 		select {
-		case <-r.done:
+		case g := <-r.doneCh:
+			if g != r.gen {
+				continue
+			}
 			r.finished = true
 			r.doneAt = r.now()
 			if r.conf.OneShot && r.conf.Rerun && r.stopped == "" && goal != nil && !goal(r) && r.now()-r.lastDev <= r.conf.Horizon {
@@ -903,9 +922,6 @@ func (r *rig) run(goal func(r *rig) bool) {
 		}
 	}
 }
-
-// genOfDone: r.done always belongs to the current incarnation (older ones are drained elsewhere)
-func (r *rig) genOfDone() bool { return true }
 
 // stuck lists where the sender's goroutines are blocked (diagnosis of a sender that does not exit).
 func (r *rig) stuck() string {
@@ -942,7 +958,7 @@ func (r *rig) close() {
 		default:
 		}
 		select {
-		case <-r.done:
+		case <-r.doneCh:
 		case <-time.After(10 * time.Minute):
 			r.notes = append(r.notes, "sender did not stop within 10 min of virtual time at tear-down")
 		}
@@ -1056,7 +1072,7 @@ func (r *rig) traceString() string {
 	for _, w := range r.wire {
 		switch w.Kind {
 		case "data", "recovery":
-			fmt.Fprintf(&b, "%8.3fs g%d %-8s %s fault=%q -> n=%d err=%q received=%v\n", w.At.Seconds(), w.Gen, w.Kind, sig(w.Parts), w.Fault, w.N, w.Err, w.Received)
+			fmt.Fprintf(&b, "%8.3fs g%d %-8s %s fault=%q -> n=%d err=%q received=%v prev[%s]\n", w.At.Seconds(), w.Gen, w.Kind, sig(w.Parts), w.Fault, w.N, w.Err, w.Received, prevs(w.Parts))
 		case "validate":
 			fmt.Fprintf(&b, "%8.3fs g%d validate %v fault=%q -> %v err=%q\n", w.At.Seconds(), w.Gen, w.Parts, w.Fault, w.Answers, w.Err)
 		case "partials":
